@@ -171,12 +171,47 @@ def run_persist(case, env):
         fmt = controldir.format_registry.make_controldir(case["format"])
         b = controldir.ControlDir.create_branch_convenience(
             path, format=fmt, force_new_tree=False)
-        with b.lock_write():
-            b.tags._set_tag_dict(dict(d))
+        if case.get("via") == "api":
+            # one tag at a time through the public API, each call on a
+            # freshly opened branch or on one long-lived object
+            from breezy import errors
+            long_lived = case.get("long_lived")
+            cur = b
+            for n in sorted(d):
+                if not long_lived:
+                    cur = _mod_branch.Branch.open(path)
+                cur.tags.set_tag(n, d[n])
+            gone = [n for n in case.get("delete", []) if n in d]
+            for n in gone:
+                if not long_lived:
+                    cur = _mod_branch.Branch.open(path)
+                cur.tags.delete_tag(n)
+                try:
+                    cur.tags.delete_tag(n)
+                except errors.NoSuchTag:
+                    pass
+                else:
+                    check(False, "C24/deleting-an-absent-tag-accepted",
+                          [case, n])
+            d = {n: v for n, v in d.items() if n not in gone}
+            check(dict(cur.tags.get_tag_dict()) == d,
+                  "C24/tag-dict-differs-on-the-writing-object",
+                  [case, repr(cur.tags.get_tag_dict())])
+        else:
+            with b.lock_write():
+                b.tags._set_tag_dict(dict(d))
         b2 = _mod_branch.Branch.open(path)
         got = b2.tags.get_tag_dict()
         check(got == d, "C24/tag-dict-not-read-back-unchanged",
               [case, repr(got)])
+        rev = b2.tags.get_reverse_tag_dict()
+        want_rev = {}
+        for n, v in d.items():
+            want_rev.setdefault(v, set()).add(n)
+        check({k: set(v) for k, v in rev.items()} == want_rev,
+              "C24/reverse-tag-dict-differs", [case, repr(dict(rev))])
+        for n in sorted(d)[:3]:
+            check(b2.tags.has_tag(n), "C24/has_tag-misses-a-tag", [case, n])
         # single-tag API agrees with the dictionary
         for n in sorted(d)[:3]:
             check(b2.tags.lookup_tag(n) == d[n], "C24/lookup_tag-differs",
@@ -229,8 +264,24 @@ def _value(env, sym):
     return BZR_VALS[sym]
 
 
+def _annotated_tag(name, revid):
+    """A dulwich Tag object (annotated tag) for `name` on the commit behind
+    the git revision id; deterministic, so source and target agree on it."""
+    from dulwich.objects import Commit, Tag
+    sha = revid.split(b":", 1)[1]
+    t = Tag()
+    t.name = name.encode("utf-8")
+    t.object = (Commit, sha)
+    t.tagger = b"T <t@example.com>"
+    t.tag_time = 1500000100
+    t.tag_timezone = 0
+    t.message = b"annotated " + name.encode("utf-8") + b"\n"
+    return t
+
+
 class Store:
-    def __init__(self, env, kind, path, tags, template=None):
+    def __init__(self, env, kind, path, tags, template=None, annotated=(),
+                 known_objects=()):
         from breezy import branch as _mod_branch
         from breezy import controldir
         self.kind = kind
@@ -253,6 +304,17 @@ class Store:
         b = _mod_branch.Branch.open(path)
         with b.lock_write():
             b.tags._set_tag_dict(dict(tags))
+        if kind == "git":
+            # annotated tags: the ref points at a tag object that peels to the
+            # commit; objects a fetch would have brought are put in as well
+            git = b.repository._git
+            for obj in known_objects:
+                git.object_store.add_object(obj)
+            for n in annotated:
+                if n in tags:
+                    t = _annotated_tag(n, tags[n])
+                    git.object_store.add_object(t)
+                    git.refs[b"refs/tags/" + n.encode("utf-8")] = t.id
         got = self.read()
         check(got == tags, "C24/%s-tag-dict-not-read-back-unchanged" % kind,
               [repr(tags), repr(got)])
@@ -319,10 +381,18 @@ def run_e2e(case, env):
     sel = _selector(case["sel"])
     srcd = {n: _value(env, v) for n, v in case["src"].items()}
     dstd = {n: _value(env, v) for n, v in case["dst"].items()}
+    ann_src = [n for n in case.get("annotated_src", []) if n in srcd]
+    ann_dst = [n for n in case.get("annotated_dst", []) if n in dstd]
+    fetched = []
+    if case["src_kind"] == "git" and case["dst_kind"] == "git":
+        fetched = [_annotated_tag(n, srcd[n]) for n in ann_src]
     src = Store(env, case["src_kind"], os.path.join(root, "src"), srcd,
-                "full")
+                "full", annotated=ann_src)
+    if case.get("same_branch"):
+        return _run_same_branch(case, src, srcd, sel)
     dst = Store(env, case["dst_kind"], os.path.join(root, "dst"), dstd,
-                case["dst_template"])
+                case["dst_template"], annotated=ann_dst,
+                known_objects=fetched)
     master = None
     if case["master"] is not None:
         masterd = {n: _value(env, v) for n, v in case["master"].items()}
@@ -351,9 +421,27 @@ def run_e2e(case, env):
         if "zz-concurrent" in srcd:
             concurrent = None
             tb.lock_write = real_lock_write
-    res = src.tags().merge_to(to_tags, overwrite=case["overwrite"],
-                              ignore_master=case["ignore_master"],
-                              selector=sel)
+    held = None
+    if case.get("held_lock") and not case.get("concurrent") and \
+            dst.kind != "mem":
+        # callers such as pull keep the destination locked around the tag
+        # merge: caches of the locked object must not go stale
+        held = to_tags.branch.lock_write()
+        # ... and have usually looked at the tags already
+        to_tags.get_tag_dict()
+    try:
+        res = src.tags().merge_to(to_tags, overwrite=case["overwrite"],
+                                  ignore_master=case["ignore_master"],
+                                  selector=sel)
+        if held is not None:
+            inside = dict(to_tags.get_tag_dict())
+    finally:
+        if held is not None:
+            held.unlock()
+    if held is not None:
+        check(inside == dst.read(),
+              "C24/locked-destination-object-reads-stale-tags",
+              [case, repr(inside), repr(dst.read())])
     if concurrent is not None:
         tb.lock_write = real_lock_write
         if not state["done"]:
@@ -386,6 +474,27 @@ def run_e2e(case, env):
             exp_upd.update(mupd)
             exp_conf |= set(mconf)
     check(src.read() == srcd, "C24/source-tags-changed", [case])
+    # the long-lived destination object sees what a fresh one sees
+    if dst.kind != "mem":
+        check(dict(to_tags.get_tag_dict()) == dst.read(),
+              "C24/%s-destination-object-reads-stale-tags" % what,
+              [case, repr(dict(to_tags.get_tag_dict())), repr(dst.read())])
+    # open finding: git -> git, the same revision tagged with an annotated
+    # tag on one side and a lightweight one on the other is not recognised as
+    # an identical definition (reported as conflict, or as update when
+    # overwriting); deferred, the other names are compared as usual
+    mixed = set()
+    if case["src_kind"] == "git" and case["dst_kind"] == "git":
+        mixed = set(n for n in srcd if n in dstd and srcd[n] == dstd[n] and
+                    (n in ann_src) != (n in ann_dst) and
+                    (sel is None or sel(n)))
+    for n in sorted(mixed):
+        if n in dict(upd) or any(c[0] == n for c in conf):
+            pending.append(violation(
+                "C24/git-annotated-and-lightweight-tag-of-one-revision-"
+                "not-identical", [case, n, repr(upd), repr(sorted(conf))]))
+            upd = {k: v for k, v in dict(upd).items() if k != n}
+            conf = set(c for c in conf if c[0] != n)
     # reported updates / conflicts (refused tags may or may not be listed)
     got_upd = {n: v for n, v in dict(upd).items() if n not in refused}
     want_upd = {n: v for n, v in exp_upd.items() if n not in refused}
@@ -397,7 +506,34 @@ def run_e2e(case, env):
                   "C24/%s-updates-differ" % what, [case, n])
     check(set(conf) == exp_conf, "C24/%s-conflicts-differ" % what,
           [case, repr(sorted(conf)), repr(sorted(exp_conf))])
+    if not pending and concurrent is None and not case.get("concurrent"):
+        # once more with the same objects: everything is now identical or in
+        # conflict, so nothing may change and nothing is reported as updated
+        before = dst.read()
+        mbefore = master.read() if master is not None else None
+        upd2, conf2 = src.tags().merge_to(
+            to_tags, overwrite=case["overwrite"],
+            ignore_master=case["ignore_master"], selector=sel)
+        check(dst.read() == before, "C24/%s-second-merge-changes-tags" % what,
+              [case, repr(dst.read()), repr(before)])
+        if master is not None:
+            check(master.read() == mbefore,
+                  "C24/%s-second-merge-changes-master" % what, [case])
+        left = {n: v for n, v in dict(upd2).items() if n not in refused}
+        if master is not None and case["ignore_master"]:
+            pass        # the master was never brought up to date
+        check(not left, "C24/%s-second-merge-reports-updates" % what,
+              [case, repr(upd2)])
+        want2 = set() if case["overwrite"] else set(
+            c for c in exp_conf if c[0] not in refused)
+        got2 = set(c for c in conf2 if c[0] not in refused)
+        if not (master is not None and case["ignore_master"]):
+            check(got2 == want2,
+                  "C24/%s-second-merge-conflicts-differ" % what,
+                  [case, repr(sorted(conf2)), repr(sorted(want2))])
     extra = "+" + what
+    if ann_src or ann_dst:
+        extra += "+annotated"
     if master is not None:
         extra += "+master" + ("-ignored" if case["ignore_master"] else "")
     if refused:
@@ -413,13 +549,32 @@ def run_e2e(case, env):
     return ok(lab)
 
 
+def _run_same_branch(case, src, srcd, sel):
+    """Source and destination are two objects of one branch: nothing to do."""
+    if src.kind == "mem":
+        return trivial()
+    a = src.open()
+    b = src.open()
+    upd, conf = a.tags.merge_to(b.tags, overwrite=case["overwrite"],
+                                ignore_master=case["ignore_master"],
+                                selector=sel)
+    check(not dict(upd) and not set(conf),
+          "C24/merge-into-the-same-branch-reports-changes",
+          [case, repr(upd), repr(conf)])
+    check(src.read() == srcd, "C24/merge-into-the-same-branch-changes-tags",
+          [case, repr(src.read())])
+    return ok("same-branch") if srcd else trivial()
+
+
 # --------------------------------------------------------------- generation
 
-_UNAME = st.text(
+_COLLIDING = ["\xe9", "e\u0301", "A", "a", "a ", " a", "a/b", "a\\b", "a\tb",
+              "\u212b", "\xc5", "1", "01", "\U0001d11e", "a\u200b"]
+_UNAME = st.one_of(st.sampled_from(_COLLIDING), st.text(
     alphabet=st.one_of(
         st.sampled_from(list("abv01 /._-é  \U0001d11e%,=\t")),
         st.characters(blacklist_categories=("Cs",))),
-    min_size=1, max_size=6)
+    min_size=1, max_size=6))
 _GNAME_SEG = st.text(alphabet="abv012_-é", min_size=1, max_size=4)
 _GNAME = st.lists(_GNAME_SEG, min_size=1, max_size=3).map("/".join)
 
@@ -488,6 +643,11 @@ def gen_pure(draw):
 def gen_persist(draw):
     tags = draw(st.dictionaries(_UNAME, _REVID.map(b2s), max_size=10))
     return {"tags": tags,
+            "via": draw(st.sampled_from(["dict", "api"])),
+            "long_lived": draw(st.booleans()),
+            "delete": (draw(st.lists(st.sampled_from(sorted(tags)),
+                                     unique=True, max_size=3))
+                       if tags else []),
             "real": draw(st.sampled_from([True, False, False])),
             "format": draw(st.sampled_from(["2a", "2a", "pack-0.92", "1.9"]))}
 
@@ -534,7 +694,16 @@ def gen_e2e(draw):
             "dst_template": dst_template, "src": src, "dst": dst,
             "master": master, "ignore_master": ignore_master,
             "overwrite": draw(st.booleans()), "sel": _sel_for(draw, src),
-            "concurrent": draw(st.sampled_from([False, False, True]))}
+            "concurrent": draw(st.sampled_from([False, False, True])),
+            "same_branch": draw(st.sampled_from([False] * 11 + [True])),
+            "held_lock": draw(st.sampled_from([False, True])),
+            "annotated_src": (draw(st.lists(st.sampled_from(sorted(src)),
+                                            unique=True))
+                              if src_kind == "git" and src else []),
+            "annotated_dst": (draw(st.lists(st.sampled_from(sorted(dst)),
+                                            unique=True))
+                              if dst_kind == "git" and dst and
+                              draw(st.booleans()) else [])}
 
 
 def kinds(tier):
